@@ -312,10 +312,29 @@ def run(ctx, B, level):
                         "functions whose successful value can legitimately be 0 (listed in checks/c03.py MAY_VANISH) are exempt from the 'never 0 without error' clause"]
 
 
+def check_error_api(ctx, B):
+    """the error API itself (copy / propagate into an empty slot / propagate to nowhere / matches / clear) on errors whose message contains conversion
+    specifications: code and message must arrive unchanged, nothing leaks, nothing crashes - in the leak-accounting and in the ASan build"""
+    for variant in ("plain", "asan"):
+        X = xrl.Xrl(variant, "A", build=B, nproc=1)
+        ks = np.arange(16)
+        r, crashed, skipped = X.op_safe("errapi", "i", ks)
+        ctx.add(evaluations=len(ks), nontrivial=int((r["v0"] == 1).sum()))
+        for j in range(len(ks)):
+            how = ["NIST lookup of a name with % in it", "parser error echoing %s%d", "xrl_set_error_literal", "xrl_set_error"][j & 3]
+            what = ["xrl_error_copy", "xrl_propagate_error into an empty slot", "xrl_propagate_error(NULL, ...)", "xrl_error_matches / xrl_clear_error"][(j >> 2) & 3]
+            sym = "crash" if j in crashed else "sanitizer" if r["flags"][j] & xrl.F_SAN else "leak" if r["leak"][j] else "error-changed" if r["v0"][j] != 1 else None
+            if sym:
+                ctx.violation("A|error-api|%s|%s|%s" % (what.split(" ")[0], sym, variant), "%s on an error produced by %s: %s (step %d, live blocks %d)" % (what, how, sym, int(r["v1"][j]), int(r["leak"][j])),
+                              dict(cfg="A", variant=variant, calls=[dict(op="errapi", sig="i", args=[int(j)])]))
+        X.close()
+
+
 def main(tier, seed):
     ctx = common.Ctx(PID, tier, seed, "exploration", deadline_s=1500 if tier == "quick" else 3000)
     B = build.Build()
     run(ctx, B, 0 if tier == "quick" else 1)
+    check_error_api(ctx, B)
     return ctx.finish()
 
 
